@@ -46,9 +46,10 @@ CTORS = [
     dict(id="lognormal_from_mean_cv", ty="LogNormal", fn="from_mean_cv", args=[("mean", "F"), ("cv", "F")], post="lognormal_from_mean_cv_post(mean, cv, r)", stubs=["log", "sqrt_c"], **G("src/normal.rs", "LogNormal")),
     dict(id="exp_new", ty="Exp", fn="new", args=[("lambda", "F")], post="exp_new_post(lambda, r)", **G("src/exponential.rs", "Exp")),
     dict(id="gamma_new", ty="Gamma", fn="new", args=[("shape", "F"), ("scale", "F")], post="gamma_new_post(shape, scale, r)", stubs=["sqrt_c"], **G("src/gamma.rs", "Gamma")),
-    dict(id="chi_squared_new", ty="ChiSquared", fn="new", args=[("k", "F")], post="chi_squared_new_post(k, r)", stubs=["sqrt_c"], tier="thorough", timeout=1800, **G("src/chi_squared.rs", "ChiSquared")),
-    dict(id="student_t_new", ty="StudentT", fn="new", args=[("nu", "F")], post="chi_squared_new_post(nu, r)", stubs=["sqrt_c"], tier="thorough", timeout=2400, **G("src/student_t.rs", "StudentT")),
-    dict(id="fisher_f_new", ty="FisherF", fn="new", args=[("m", "F"), ("n", "F")], post="fisher_f_new_post(m, n, r)", stubs=["sqrt_c"], tier="thorough", timeout=3600, **G("src/fisher_f.rs", "FisherF")),
+    # modular: the callee constructor is replaced by its VERIFIED contract (kani::stub_verified), so these close in seconds
+    dict(id="chi_squared_new", ty="ChiSquared", fn="new", args=[("k", "F")], post="chi_squared_new_post(k, r)", stub_verified=["Gamma::<$F>::new"], **G("src/chi_squared.rs", "ChiSquared")),
+    dict(id="student_t_new", ty="StudentT", fn="new", args=[("nu", "F")], post="chi_squared_new_post(nu, r)", stub_verified=["ChiSquared::<$F>::new"], **G("src/student_t.rs", "StudentT")),
+    dict(id="fisher_f_new", ty="FisherF", fn="new", args=[("m", "F"), ("n", "F")], post="fisher_f_new_post(m, n, r)", stub_verified=["ChiSquared::<$F>::new"], **G("src/fisher_f.rs", "FisherF")),
     dict(id="beta_new", ty="Beta", fn="new", args=[("alpha", "F"), ("beta", "F")], post="beta_new_post(alpha, beta, r)", stubs=["sqrt_c"], timeout=900, **G("src/beta.rs", "Beta")),
     dict(id="poisson_new", ty="Poisson", fn="new", args=[("lambda", "F")], post="poisson_new_post(lambda, F::from(Self::MAX_LAMBDA).unwrap(), r)", stubs=["exp", "sqrt_c", "floor", "log"], timeout=900, **G("src/poisson.rs", "Poisson")),
     dict(id="skew_normal_new", ty="SkewNormal", fn="new", args=[("location", "F"), ("scale", "F"), ("shape", "F")], post="skew_normal_new_post(location, scale, shape, r)", **G("src/skew_normal.rs", "SkewNormal")),
@@ -81,6 +82,8 @@ def gen_c04():
             tyargs = "::<%s>" % fl if fl else ""
             L.append("#[kani::proof_for_contract(rd::%s%s::%s)]" % (c["ty"], tyargs, c["fn"]))
             L += stub_attrs(c.get("stubs", []), fl)
+            for sv in c.get("stub_verified", []):
+                L.append("#[kani::stub_verified(rd::%s)]" % sv.replace("$F", fl))
             L.append("fn %s() {" % harness_name(c, fl))
             call = []
             for a, t in c["args"]:
@@ -106,11 +109,11 @@ def c04_units():
                         "contract": "kani::ensures(|r| spec::%s)" % c["post"],
                         "schema": [(a, (fl if t == "F" else t)) for a, t in c["args"]],
                         "replay": {"kind": "ctor", "id": c["id"], "float": fl},
-                        "stubs": c.get("stubs", [])})
+                        "stubs": c.get("stubs", []), "stub_verified": c.get("stub_verified", [])})
     return out
 
 
-CHILD_MODULES = {"src/beta.rs": "child_beta.rs", "src/multi/dirichlet.rs": "child_dirichlet.rs"}
+CHILD_MODULES = {"src/exponential.rs": "child_exponential.rs", "src/gamma.rs": "child_gamma.rs", "src/chi_squared.rs": "child_chi_squared.rs", "src/beta.rs": "child_beta.rs", "src/weibull.rs": "child_weibull.rs", "src/pareto.rs": "child_pareto.rs", "src/multi/dirichlet.rs": "child_dirichlet.rs", "src/hypergeometric.rs": "child_hypergeo.rs"}
 
 
 def plain(hid, mod, prop, target, file, schema, obligation, kind="proof", tier="quick", timeout=600, solver=None, replay=None, bound=None, extra=None, stubs=None):
@@ -254,8 +257,24 @@ C11_UNITS += [
 ]
 
 
+HYPER_UNITS = [
+    child("c03_hypergeo_hin_support", "hypergeometric", ["C03"], "Hypergeometric::sample (inverse-transform branch)", "src/hypergeometric.rs",
+          [("N", "u64"), ("K", "u64"), ("n", "u64")],
+          "every struct satisfying the invariant established by `new`, every value of the float initial_p, every uniform draw: the result lies in [max(0, n+K-N), min(n, K)]",
+          kind="bounded", bound="k = min(n, N-n) <= 3 (loop unwound 5 times with unwinding assertion); N <= 2^40", timeout=1800,
+          replay={"kind": "search", "bin": "hgsearch", "args": ["40", "4"]}),
+]
+
+
+C07_CHILD_UNITS = []
+for _t, _ty, _field, _expr in (("weibull", "Weibull", "inv_shape", "1/shape"), ("pareto", "Pareto", "inv_neg_shape", "-1/shape")):
+    C07_CHILD_UNITS.append(child("c07_%s_scale_f32" % _t, _t, ["C07"], "%s::sample" % _ty, "src/%s.rs" % _t, [("scale", "f32"), ("shape", "f32"), ("words", "words1")],
+                                 "%s(scale, shape)(w) == scale * %s(1, shape)(w) (run B shares the derived field); one word each" % (_ty, _ty), solver="kissat", timeout=2400, tier="quick" if _t == "pareto" else "thorough",
+                                 stubs=["pow"] + (["log"] if _t == "weibull" else []), replay={"kind": "sampler", "id": "%s_scale" % _t, "float": "f32"}))
+
+
 def all_units():
-    return c04_units() + C04_EXTRA + C03_UNITS + C06_UNITS + C07_UNITS + WEIGHT_UNITS + C11_UNITS
+    return c04_units() + C04_EXTRA + C03_UNITS + C06_UNITS + C07_UNITS + C07_CHILD_UNITS + WEIGHT_UNITS + C11_UNITS + HYPER_UNITS
 
 
 # ------------------------------------------------------------------ native replay dispatcher (generated Rust)
